@@ -79,7 +79,10 @@ def explicit_values(seed):
           [['plain', 'abcd'], ['apply', R['R'], 0, 4, True], ['apply', R['R'], 1, 2, True]],
           [['rainbow', 'a-b-c'], ['apply', R['W'], 1, 4, True]],
           [['plain', 'abcdef'], ['apply', R['R'], 1, 5, True], ['apply', R['B'], 2, 4, True]],
-          [['plain', 'abc'], ['apply', R['o'], 0, 2, True], ['apply', R['q'], 1, 3, True]]]     # non-canonical / multi-group texts
+          [['plain', 'abc'], ['apply', R['o'], 0, 2, True], ['apply', R['q'], 1, 3, True]],     # non-canonical / multi-group texts
+          # valid but unparsable verbatim settings (unknown code, value > 255, colon form): their lazily computed flags
+          # are queried again and again by every rendering
+          [['plain', 'abc'], ['apply', R['u'], 0, 2, True], ['apply', '[1;300', 1, 3, True], ['apply', '[4:3', 0, 1, True]]]
     return [(h, build(h)) for h in hs]
 
 
